@@ -2,6 +2,7 @@ package drive
 
 import (
 	"bytes"
+	"io"
 	"encoding/json"
 	"fmt"
 	"sync"
@@ -191,6 +192,9 @@ func C05(c *hx.Ctx) {
 		switch {
 		case p != nil:
 			c.Violation(sig("panic"), fmt.Sprintf("%s cut at %d: panic %v", t.name, cut, p), replay)
+		case err == io.EOF && !cleanOK:
+			// the error value of a failed open/read must not be the end-of-stream value itself
+			c.Violation(sig("error-value-is-eof"), fmt.Sprintf("%s cut at %d/%d (%s): the reported error is io.EOF itself", t.name, cut, len(t.data), region), replay)
 		case outcome == "clean" && !cleanOK:
 			c.Violation(sig("truncated-read-as-complete"), fmt.Sprintf("%s cut at %d/%d (%s): clean end of stream after %d of %d bytes", t.name, cut, len(t.data), region, len(out), len(t.plain)), replay)
 		case outcome == "error" && cleanOK:
